@@ -43,7 +43,7 @@ PROPS["C16"] = {
                   "not modelled: a ttl is the number handed over); redigo's Do/Send/Flush/Receive as implemented by the fake connections; the "
                   "element-wise expansion of big keys is C02's (parameter Codec.expand with Codec.Sound); abort = log.Panic is observed per "
                   "goroutine, the other stages are drained; the model-code tie is sampled.",
-    "rule": "rump: random configurations (scan.key_number 1..15, target.db, key_exists none/rewrite, big_key_threshold 0/around payload "
+    "rule": "(a third of the key-file cases hold 230 / 450 / 1100 keys, beyond the line scanner's start buffer.) rump: random configurations (scan.key_number 1..15, target.db, key_exists none/rewrite, big_key_threshold 0/around payload "
             "sizes/default, key and db black/white lists) x random scenarios (1..3 source dbs in any order, keys with values of five types and "
             "payloads the target rejects or the expander cannot decode, ttl -1/0/1/large, SCAN scripts with any page sizes incl. empty pages, "
             "extra or missing final replies, keys already gone or reported twice, vanish events before any DUMP/PTTL, pre-existing target keys colliding or not; qps below the key count; scan.key_number 50/100 with 2-3 batches of keys; "
